@@ -222,8 +222,15 @@ def run(C, R):
             for wfn, s in scan_field_writes(F, f, 'buffer::ring_buffer'):
                 if wfn.get('impl_adt') == ARRAY and wfn.get('name') in ('push', 'pop', 'drop', 'new'):
                     R.ok('C19.R3', '%s|%s' % (wfn['path'], f))
+                elif ('<buffer::ring_buffer::ArrayBuf' in wfn['path'] or wfn.get('impl_adt') == ARRAY) and \
+                        wfn.get('name') in ('len', 'capacity', 'can_push', 'is_empty', 'next_idx'):
+                    R.fail('C19.R3', [wfn['path'], f], '%s is written in %s (a report function)' % (f, wfn['path']),
+                           F.loc(wfn, s['ln']))
                 elif '<buffer::ring_buffer::ArrayBuf' in wfn['path'] or wfn.get('impl_adt') == ARRAY:
-                    R.fail('C19.R3', [wfn['path'], f], '%s is written in %s' % (f, wfn['path']), F.loc(wfn, s['ln']))
+                    # an operation the ring schema has no canonical form for (clear, extend, ...): not judged, and
+                    # not condemned either
+                    raise CheckerError('cannot judge %s: it writes `%s` of ArrayBuf and is not one of new / push / pop / '
+                                       'drop, the operations the ring schema describes' % (wfn['path'], f))
         # ---- new + R5
         fn = fn_of(ARRAY, 'new')
         for path in E.run(fn['path']):
